@@ -99,7 +99,9 @@ pub fn render(g: &Gen, dyn_keys: &[String]) -> Value {
             }
         }
         for k in 0..(g.auth as u64 % 5) {
-            p2v(&mut ann, &path, &format!("For node {}", 100 + k), "Hash", hx(nf()), 1);
+            // Stone labels some authentication nodes "Data": both kinds, interleaved, in stream order
+            let kind = if (g.seed >> (8 + k)) & 1 == 1 { "Data" } else { "Hash" };
+            p2v(&mut ann, &path, &format!("For node {}", 100 + k), kind, hx(nf()), 1);
         }
     }
     for k in 1..steps.len() {
@@ -172,7 +174,7 @@ pub struct FileEdit {
     pub b: u8,
 }
 
-pub const EDIT_NAMES: [&str; 22] = [
+pub const EDIT_NAMES: [&str; 24] = [
     "pow_bits",
     "n_queries",
     "log_n_cosets",
@@ -195,6 +197,8 @@ pub const EDIT_NAMES: [&str; 22] = [
     "annotation_lines_swapped",
     "nonce_extreme",
     "annotation_value_not_canonical",
+    "dynamic_param_renamed",
+    "dynamic_structural_param_renamed",
 ];
 
 fn p2v_lines(ann: &[Value]) -> Vec<usize> {
@@ -243,7 +247,7 @@ pub fn apply_edit(j: &mut Value, e: &FileEdit) -> Option<&'static str> {
             }
             let i = pick(e.a, mem.len());
             match kind {
-                9 => mem[i]["value"] = json!(["0xZZ", "", "0x", "12g4"][e.b as usize % 4]),
+                9 => mem[i]["value"] = json!(["0xZZ", "", "0x", "12g4", "0x+12", "0x1_2", "0x-1"][e.b as usize % 7]),
                 10 => mem[i]["value"] = json!(not_canonical),
                 11 => mem[i]["page"] = json!(1 + e.b as u64 % 3),
                 _ => mem[i]["address"] = json!([4294967295u64, 0][e.b as usize % 2]),
@@ -277,7 +281,7 @@ pub fn apply_edit(j: &mut Value, e: &FileEdit) -> Option<&'static str> {
                     let first_end = rest.find(',').unwrap_or(rest.len());
                     let nv = match kind {
                         16 => format!("{:#x}", prf_felt(e.a as u64, e.b as u64)),
-                        17 => ["0xZZ", "zz", "0x12 34"][e.b as usize % 3].to_string(),
+                        17 => ["0xZZ", "zz", "0x12 34", "0x+12", "0x1_2", "0x"][e.b as usize % 6].to_string(),
                         _ => not_canonical.to_string(),
                     };
                     if l.contains(": Data(") && kind != 17 {
@@ -305,6 +309,21 @@ pub fn apply_edit(j: &mut Value, e: &FileEdit) -> Option<&'static str> {
                     ann[lj] = json!(format!("{}{}", rb, pa));
                 }
             }
+        }
+        22 | 23 => {
+            let m = j["public_input"]["dynamic_params"].as_object_mut()?;
+            let keys: Vec<String> = if kind == 22 {
+                m.keys().cloned().collect()
+            } else {
+                ["cpu_component_step", "num_columns_first", "num_columns_second"].iter().map(|s| s.to_string()).filter(|k| m.contains_key(k)).collect()
+            };
+            if keys.is_empty() {
+                return None;
+            }
+            let k = keys[pick(e.a, keys.len())].clone();
+            let v = m.remove(&k)?;
+            // same number of parameters, one of them under a name the layout does not have
+            m.insert(format!("{}{}", k, ["_x", "s", "0"][e.b as usize % 3]), v);
         }
         _ => {
             let ann = j["annotations"].as_array_mut()?;
@@ -494,7 +513,7 @@ pub fn strategy() -> impl Strategy<Value = Case> {
     )
         .prop_map(|((layout, seed, steps, log_last, n_steps_log), (cosets, queries, oods, mem, auth, leaves))| Gen { layout, seed, steps, log_last, n_steps_log, cosets, queries, oods, mem, auth, leaves });
     let edit = (0u8..EDIT_NAMES.len() as u8, any::<u16>(), any::<u8>()).prop_map(|(kind, a, b)| FileEdit { kind, a, b });
-    (prop_oneof![12 => Just(None), 1 => any::<u8>().prop_map(Some)], gen, prop_oneof![1 => Just(vec![]), 3 => proptest::collection::vec(edit, 1..=2)]).prop_map(|(shipped, gen, edits)| Case { shipped, gen, edits })
+    (prop_oneof![30 => Just(None), 1 => any::<u8>().prop_map(Some)], gen, prop_oneof![1 => Just(vec![]), 3 => proptest::collection::vec(edit, 1..=2)]).prop_map(|(shipped, gen, edits)| Case { shipped, gen, edits })
 }
 
 pub fn run(ctx: &Ctx) -> Report {
@@ -529,7 +548,7 @@ pub fn run(ctx: &Ctx) -> Report {
         &mut rep,
     );
     // (b)+(c) generated and edited files
-    pt_run(ctx, "c19", ctx.n(12000, 400000), strategy, |c| check(&e, c), &mut rep);
+    pt_run(ctx, "c19", ctx.n(12000, 120000), strategy, |c| check(&e, c), &mut rep);
     rep
 }
 
@@ -543,4 +562,4 @@ pub fn replay(ctx: &Ctx, v: &Value) -> Result<Outcome, String> {
     Ok(check(&e, &c))
 }
 
-pub const RULE: &str = "(a) the 25 shipped files: parse + TransformTo must succeed and equal, field for field, what the independent loader reads (loader cross-checked against proof_hex); (b) generated Stone-shaped files (any of the 7 layouts incl. dynamic with all 340 parameters, 1..4 FRI steps, vectors of 0..8 elements, PRF values) rendered by the harness's writer: same equality; (c) shipped (8%) or generated files with 1..2 grammar-level edits out of 22 classes (PoW bits incl. 255/256, query count, cosets, step list empty/long/huge, last-layer bound non-power/0/huge, n_steps 0/non-power/huge, rc bounds, unknown/removed segment, memory value bad hex / not canonical / page != 0 / huge address, unknown layout, dynamic parameter removed / added to a static layout, annotation value changed / bad hex / not canonical, line removed, two lines of one label swapped, nonce 0 / 2^64 / 2^64-1). Oracle: loader says X => parser Ok must equal X (parser Err is tolerated for edited files: stricter is fine); loader says malformed/unrepresentable => parser must return Err; a panic is always a violation. Non-trivial = every judged file; classes = base x edit classes x outcome; distinct by case hash";
+pub const RULE: &str = "(a) the 25 shipped files: parse + TransformTo must succeed and equal, field for field, what the independent loader reads (loader cross-checked against proof_hex); (b) generated Stone-shaped files (any of the 7 layouts incl. dynamic with all 340 parameters, 1..4 FRI steps, vectors of 0..8 elements, PRF values) rendered by the harness's writer: same equality; (c) shipped (3%) or generated files with 1..2 grammar-level edits out of 22 classes (PoW bits incl. 255/256, query count, cosets, step list empty/long/huge, last-layer bound non-power/0/huge, n_steps 0/non-power/huge, rc bounds, unknown/removed segment, memory value bad hex (incl. sign and '_' separators) / not canonical / page != 0 / huge address, unknown layout, dynamic parameter removed / added to a static layout, annotation value changed / bad hex (incl. sign and '_' separators) / not canonical, line removed, two lines of one label swapped, nonce 0 / 2^64 / 2^64-1, a dynamic parameter renamed with the count unchanged). Oracle: loader says X => parser Ok must equal X (parser Err is tolerated for edited files: stricter is fine); loader says malformed/unrepresentable => parser must return Err; a panic is always a violation. Non-trivial = every judged file; classes = base x edit classes x outcome; distinct by case hash";
